@@ -258,14 +258,12 @@ fn parse_block(offset: u64, stored_len: u64, raw: Vec<u8>, interval_hint: Option
     Ok(DBlock { offset, stored_len, raw, payload_len, entries, offsets, depth: None })
 }
 
-/// Decodes a complete file and checks every structural sentence of the format.
-/// `interval_hint`: the configured in-block index interval when known.
-pub fn decode(bytes: &[u8], interval_hint: Option<usize>) -> Result<DFile, String> {
+/// Tiling and per-block parsing only (no tree walk, no ordering check).
+pub fn decode_blocks(bytes: &[u8], interval_hint: Option<usize>) -> Result<(Trailer, Vec<DBlock>), String> {
     let trailer = parse_trailer(bytes)?;
     let body_end = bytes.len() - trailer.size;
     // 1. sequential tiling of [0, body_end) into length-prefixed blocks
     let mut blocks = Vec::new();
-    let mut by_offset = HashMap::new();
     let mut p = 0usize;
     while p < body_end {
         if p + 8 > body_end {
@@ -278,12 +276,28 @@ pub fn decode(bytes: &[u8], interval_hint: Option<usize>) -> Result<DFile, Strin
         let data = &bytes[p + 8..p + 8 + len as usize];
         let raw = decompress(trailer.codec, data).map_err(|e| format!("block at {}: {}", p, e))?;
         let block = parse_block(p as u64, len, raw, interval_hint)?;
-        by_offset.insert(p as u64, blocks.len());
         blocks.push(block);
         p += 8 + len as usize;
     }
     if blocks.is_empty() {
         return Err("no block at all (not even a root index block)".into());
+    }
+    Ok((trailer, blocks))
+}
+
+/// Index (within the block) of the first entry whose key is not strictly greater than its
+/// predecessor, if any.
+pub fn first_unsorted(b: &DBlock) -> Option<usize> {
+    (1..b.entries.len()).find(|&i| b.key(i - 1) >= b.key(i))
+}
+
+/// Decodes a complete file and checks every structural sentence of the format.
+/// `interval_hint`: the configured in-block index interval when known.
+pub fn decode(bytes: &[u8], interval_hint: Option<usize>) -> Result<DFile, String> {
+    let (trailer, mut blocks) = decode_blocks(bytes, interval_hint)?;
+    let mut by_offset = HashMap::new();
+    for (i, b) in blocks.iter().enumerate() {
+        by_offset.insert(b.offset, i);
     }
     // 2. root is the last block
     let root_idx = *by_offset.get(&trailer.root_offset).ok_or_else(|| format!("root offset {} is not a block start", trailer.root_offset))?;
